@@ -27,6 +27,8 @@ Spellings == {"plain", "raw"}
 \* and with the rule on the variant while the enum's rename_all / rename_all_fields name another rule (the variant's own rule wins;
 \* the enum's rename_all never reaches fields): the required name is the same in all of them (SerdeAttrs!RuleForField)
 FieldContexts == {"struct", "variant-rule", "enum-fields-rule", "variant-rule-over-enum-rules"}
+\* the container's rule may stand in its first #[serde(..)] attribute or in a later one (serde merges every #[serde(..)] attribute of an item)
+AttrSpellings == {"first-attribute", "rule-in-second-attribute"}
 \* model-level comparison M = P (counted, not judged)
 Diverges(pos, r, s) == Defined(r, pos, s) /\ (M!TPanics(r, pos, s) \/ M!TRename(r, pos, s) # Apply(r, pos, s))
 
